@@ -35,6 +35,11 @@ def configs():
     # the same, left to invent its own name
     out.append({"deco": deco, "host": "ao", "live_spy": False, "live_trace": True, "drive": "post", "poll": False,
                 "anonymous": True})
+    # live output switched on only after the chart was started (a running system being looked into)
+    out.append({"deco": deco, "host": "ao", "live_spy": True, "live_trace": True, "drive": "post", "poll": False,
+                "late_live": True})
+    out.append({"deco": deco, "host": "queued", "live_spy": True, "live_trace": True, "drive": "post", "poll": False,
+                "late_live": True})
   return out
 
 
@@ -53,12 +58,15 @@ def transcript_ao(case, cfg):
 
   def body(s):
     chart = chartgen.bounded(ao.ActiveObject)(name=None if cfg.get("anonymous") else "vfhost")
-    chart.live_spy, chart.live_trace = cfg["live_spy"], cfg["live_trace"]
+    if not cfg.get("late_live"):
+      chart.live_spy, chart.live_trace = cfg["live_spy"], cfg["live_trace"]
     chart.register_live_spy_callback(sink.append)
     chart.register_live_trace_callback(sink.append)
     out = []
     chart.start_at(rt.fns[case["start"]])
     s.quiesce()
+    if cfg.get("late_live"):
+      chart.live_spy, chart.live_trace = cfg["live_spy"], cfg["live_trace"]
     out.append((list(rt.log), chart.state_name))
     for sig in case["events"]:
       rt.clear()
@@ -90,7 +98,7 @@ def transcript(case, cfg):
   rt = chartgen.build(case["spec"], decorate=cfg["deco"])
   chart = hsmcheck.make_host(cfg["host"])
   sink = []
-  if cfg["host"].startswith("queued"):
+  if cfg["host"].startswith("queued") and not cfg.get("late_live"):
     chart.live_spy = cfg["live_spy"]
     chart.live_trace = cfg["live_trace"]
     chart.register_live_spy_callback(sink.append)
@@ -99,6 +107,8 @@ def transcript(case, cfg):
   try:
     chart.start_at(rt.fns[case["start"]])
     out.append((list(rt.log), chart.state_name))
+    if cfg.get("late_live"):
+      chart.live_spy, chart.live_trace = cfg["live_spy"], cfg["live_trace"]
     if cfg["drive"] == "batch":
       rt.clear()
       for sig in case["events"]:
@@ -133,7 +143,8 @@ def cfg_name(c):
                               "mixed_even": "even-states-decorated", "mixed_odd": "odd-states-decorated"}[c["deco"]],
                              c["host"], "+live_spy" if c["live_spy"] else "",
                              "+live_trace" if c["live_trace"] else "", c["drive"],
-                             ("+polled" if c["poll"] else "") + ("+anonymous" if c.get("anonymous") else ""))
+                             ("+polled" if c["poll"] else "") + ("+anonymous" if c.get("anonymous") else "") +
+                             ("+live_switched_on_after_start" if c.get("late_live") else ""))
 
 
 class C18(Prop):
@@ -144,7 +155,7 @@ class C18(Prop):
           "configurations: {no decorator, the spy decorator on every state, on the even-numbered or on the odd-numbered states only, some other functools.wraps decorator} x "
           "{plain, instrumented, queued with instrumentation on/off} x {live spy} x {live trace} x "
           "{dispatch directly / post + complete_circuit per event / all events posted and run by one complete_circuit} x {read-only observers current_state(), "
-          "spy(), trace(), spy_rtc() polled between steps or not} and {a started ActiveObject under the deterministic scheduler, with live output through its writer thread}. "
+          "spy(), trace(), spy_rtc() polled between steps or not} and {a started ActiveObject under the deterministic scheduler, with live output through its writer thread}, and on both kinds of host live output that is switched on only after start_at. "
           "Differential oracle: the handlers' action log (entries, exits, inits, user-signal "
           "clauses) and the resting state after start_at and after every event are identical in "
           "every configuration. Non-trivial: the case contains >=1 transition with "
